@@ -22,6 +22,7 @@ import (
 
 	hclog "github.com/hashicorp/go-hclog"
 	"github.com/hashicorp/go-plugin/internal/grpcmux"
+	"github.com/hashicorp/go-plugin/internal/verifhook"
 	"google.golang.org/grpc"
 )
 
@@ -418,6 +419,8 @@ func Serve(opts *ServeConfig) {
 
 	logger.Debug("plugin address", "network", listener.Addr().Network(), "address", listener.Addr().String())
 
+	verifhook.Point("serve.listening", 0)
+
 	// Output the address and service name to stdout so that the client can
 	// bring it up. In test mode, we don't do this because clients will
 	// attach via a reattach config.
@@ -444,6 +447,7 @@ func Serve(opts *ServeConfig) {
 		}
 		fmt.Printf("%s\n", protocolLine)
 		os.Stdout.Sync()
+		verifhook.Point("serve.handshake-printed", 0)
 	} else if ch := opts.Test.ReattachConfigCh; ch != nil {
 		// Send back the reattach config that can be used. This isn't
 		// quite ready if they connect immediately but the client should
@@ -491,6 +495,7 @@ func Serve(opts *ServeConfig) {
 		}
 		os.Stdout = stdout_w
 		os.Stderr = stderr_w
+		verifhook.Point("serve.stdio-swapped", 0)
 	}
 
 	// Accept connections and wait for completion
